@@ -1057,11 +1057,12 @@ def family_constant_kw(run: Run, I: Impl, hist: dict):
     op = I.op17
     f = R.f64_from_bits
     table = {
-        "value_float": ("AFloat32", [0.1, -0.0, 1e39, 2.0**-150, f(0x3690000000000001), float("nan"), f(0xFFF8000012345678), 5, True, 16777217,
+        # (equal-but-different values next to each other: 0.0 / -0.0, 1 / 1.0 / True - an attribute is what was given NOW)
+        "value_float": ("AFloat32", [0.0, -0.0, 0.0, 1, 1.0, True, 0.1, -0.0, 1e39, 2.0**-150, f(0x3690000000000001), float("nan"), f(0xFFF8000012345678), 5, True, 16777217,
                                      2**60 + 2**36 + 1, 10**400, np.float32(0.1), "a", [1.0], np.int64(3), f(rng.getrandbits(64))]),
-        "value_int": ("AInt64", [0, -1, 2**63 - 1, -2**63, 2**63, True, np.int64(-7), np.uint64(2**64 - 1), 1.0, "1", [1]]),
+        "value_int": ("AInt64", [1, True, 1, 0, False, 0, -1, 2**63 - 1, -2**63, 2**63, True, np.int64(-7), np.uint64(2**64 - 1), 1.0, "1", [1]]),
         "value_string": ("AString", ["", "a", "🐍é", "a\x00b", 5, ["a"], "\ud800"]),
-        "value_floats": ("AFloat32s", [[], [0.1, -0.0], [1, 2.5, True], [float("nan"), 1e39, 2.0**-149], (1.0, 2.0), [2**60 + 2**36 + 1], ["a"], 1.0, "ab", [10**400],
+        "value_floats": ("AFloat32s", [[0.0], [-0.0], [0.0], [], [0.1, -0.0], [1, 2.5, True], [float("nan"), 1e39, 2.0**-149], (1.0, 2.0), [2**60 + 2**36 + 1], ["a"], 1.0, "ab", [10**400],
                                        [f(rng.getrandbits(64)) for _ in range(4)]]),
         "value_ints": ("AInt64s", [[], [1, -2], [2**63 - 1, -2**63], [2**63], [1.0], [True], (3, 4), 5, range(3), [np.int64(5)]]),
         "value_strings": ("AStrings", [[], ["a", "🐍"], ["", "é"], "ab", [1], ["a", b"b"]]),
